@@ -14,6 +14,7 @@ import (
 	"sort"
 	"strings"
 	"sync"
+	"sync/atomic"
 	"testing/synctest"
 	"time"
 
@@ -38,21 +39,42 @@ type mrec struct {
 	err     bool
 }
 
+// The context of a call: with a deadline D (hasD) or without, cancelled explicitly at
+// instant C (hasC) or not, and in any case cancelled by the harness at instant F, after
+// everything that is observed.  All instants relative to the start of the call.
 type round struct {
-	start  int64 // histories only
-	D      int64
-	clocks []script
-	ms0    []mrec
+	start      int64 // histories only
+	hasD, hasC bool
+	D, C, F    int64
+	clocks     []script
+	ms0        []mrec
+}
+
+func fmtCtx(rd round) string {
+	return lib.L(lib.Bool(rd.hasD), lib.I(rd.D), lib.Bool(rd.hasC), lib.I(rd.C), lib.I(rd.F))
+}
+
+// the instant at which the context's Done channel closes
+func doneAt(rd round) int64 {
+	d := max0(rd.F)
+	if rd.hasD && max0(rd.D) < d {
+		d = max0(rd.D)
+	}
+	if rd.hasC && max0(rd.C) < d {
+		d = max0(rd.C)
+	}
+	return d
 }
 
 var errClock = errors.New("scripted clock failed")
 var errStale = errors.New("stale error")
 
 type sclock struct {
-	s     script
-	start time.Time
-	mu    *sync.Mutex
-	done  *int64
+	s       script
+	start   time.Time
+	mu      *sync.Mutex
+	done    *int64
+	release chan struct{} // closed by the harness when it tears the case down
 }
 
 func (c *sclock) MeasureClockOffset(ctx context.Context) (time.Time, time.Duration, error) {
@@ -70,6 +92,8 @@ func (c *sclock) MeasureClockOffset(ctx context.Context) (time.Time, time.Durati
 			tm.Stop()
 			time.Sleep(e)
 		}
+	case 4: // never, whatever happens to the context (until the harness tears the case down)
+		<-c.release
 	default: // never until cancelled, then e later
 		<-ctx.Done()
 		time.Sleep(e)
@@ -141,17 +165,30 @@ type callResult struct {
 	comps []int64
 }
 
-func startCall(c *client.ReferenceClockClient, rd round) (*callResult, context.CancelFunc) {
-	res := &callResult{cls: -1, ret: -1, comps: make([]int64, len(rd.clocks))}
+// prepareCall sets up one call on collector c as of now; run performs it (synchronously,
+// recording how it ended); teardown cancels its context and releases its blocked clocks.
+func prepareCall(c *client.ReferenceClockClient, rd round) (res *callResult, run func(), teardown func()) {
+	res = &callResult{cls: -1, ret: -1, comps: make([]int64, len(rd.clocks))}
 	start := time.Now()
+	release := make(chan struct{})
 	clks := make([]client.ReferenceClock, len(rd.clocks))
 	for i, s := range rd.clocks {
 		res.comps[i] = -1
-		clks[i] = &sclock{s: s, start: start, mu: &res.mu, done: &res.comps[i]}
+		clks[i] = &sclock{s: s, start: start, mu: &res.mu, done: &res.comps[i], release: release}
 	}
 	res.ms = toMs(rd.ms0)
-	ctx, cancel := context.WithTimeout(context.Background(), scale*time.Duration(rd.D))
-	go func() {
+	var ctx context.Context
+	var cancel context.CancelFunc
+	if rd.hasD {
+		ctx, cancel = context.WithTimeout(context.Background(), scale*time.Duration(rd.D))
+	} else {
+		ctx, cancel = context.WithCancel(context.Background())
+	}
+	if rd.hasC {
+		time.AfterFunc(scale*time.Duration(rd.C), cancel)
+	}
+	time.AfterFunc(scale*time.Duration(rd.F), cancel)
+	run = func() {
 		defer func() {
 			if r := recover(); r != nil {
 				res.mu.Lock()
@@ -164,8 +201,12 @@ func startCall(c *client.ReferenceClockClient, rd round) (*callResult, context.C
 		res.mu.Lock()
 		res.cls, res.ret = 0, d
 		res.mu.Unlock()
-	}()
-	return res, cancel
+	}
+	teardown = func() {
+		cancel()
+		close(release)
+	}
+	return
 }
 
 // All scripted durations are doubled, so that everything the scenario makes happen
@@ -314,23 +355,32 @@ func (r *callResult) snapshot() (cls, ret int64, ms string, comps []int64) {
 func runCollect(tags string, rd round, probes []int64) {
 	counts := make([]int64, len(probes))
 	var res *callResult
+	var comps []int64
+	var after int64
 	dead, hung := bubble(func() {
 		start := time.Now()
 		var c client.ReferenceClockClient
-		var cancel context.CancelFunc
-		res, cancel = startCall(&c, rd)
+		r, run, teardown := prepareCall(&c, rd)
+		res = r
+		go run()
+		last := int64(0)
 		for i, tp := range probes {
 			sleepUntil(start, scale*time.Duration(tp)+1)
 			counts[i] = bubbleGoroutines()
+			last = tp
 		}
-		cancel()
+		_, _, _, comps = res.snapshot()
+		if rd.F > last {
+			last = rd.F
+		}
+		sleepUntil(start, scale*time.Duration(last+1))
+		teardown()
+		synctest.Wait()
+		after = bubbleGoroutines()
 	})
-	cls, ret, ms, comps := res.snapshot()
-	if dead && cls == 0 {
-		// goroutines were left behind for ever: report them at the last probe
-		if len(counts) > 0 && counts[len(counts)-1] == 0 {
-			counts[len(counts)-1] = 1
-		}
+	cls, ret, ms, _ := res.snapshot()
+	if dead && after == 0 {
+		after = 1 // goroutines were left behind for ever
 	}
 	if cls == -1 {
 		cls = 5 // the call never returned
@@ -347,32 +397,75 @@ func runCollect(tags string, rd round, probes []int64) {
 		}
 	}()
 	w.Case("collect", tags,
-		lib.V(lib.I(rd.D), fmtScripts(rd.clocks), fmtMrecs(rd.ms0), lib.IL(probes)),
-		lib.V(lib.I(cls), lib.I(ret), ms, lib.IL(comps), lib.IL(counts)))
+		lib.V(fmtCtx(rd), fmtScripts(rd.clocks), fmtMrecs(rd.ms0), lib.IL(probes)),
+		lib.V(lib.I(cls), lib.I(ret), ms, lib.IL(comps), lib.IL(counts), lib.I(after)))
 }
 
-func runHistory(tags string, ops []round, tend int64) {
+// runHistory makes the calls ops on ONE collector object.  Sequential histories start each
+// call at its instant after everything earlier has settled.  Concurrent ones (kind "race":
+// all calls have the same start) release all callers at once from a barrier, with no
+// synchronisation between them: which of them gets in is up to the scheduler.
+func runHistory(kind, tags string, ops []round, tend int64, variant int) {
 	results := make([]*callResult, len(ops))
-	var cnt int64
+	compss := make([][]int64, len(ops))
+	var cnt, after int64
 	dead, hung := bubble(func() {
 		start := time.Now()
 		var c client.ReferenceClockClient
-		var cancels []context.CancelFunc
-		for i, op := range ops {
-			sleepUntil(start, scale*time.Duration(op.start))
-			r, cancel := startCall(&c, op)
-			results[i] = r
-			cancels = append(cancels, cancel)
+		var teardowns []func()
+		if kind == "race" {
+			sleepUntil(start, scale*time.Duration(ops[0].start))
+			var gate atomic.Bool
+			var ready sync.WaitGroup
+			for i, op := range ops {
+				r, run, teardown := prepareCall(&c, op)
+				results[i] = r
+				teardowns = append(teardowns, teardown)
+				ready.Add(1)
+				go func(i int) {
+					spin := (variant >> (4 * uint(i))) & 15
+					ready.Done()
+					for !gate.Load() {
+						if variant&(1<<12) != 0 {
+							runtime.Gosched()
+						}
+					}
+					for k := 0; k < spin*3; k++ {
+						_ = gate.Load()
+					}
+					if variant&(1<<13) != 0 && i%2 == 1 {
+						runtime.Gosched()
+					}
+					run()
+				}(i)
+			}
+			ready.Wait()
+			gate.Store(true)
 			synctest.Wait()
+		} else {
+			for i, op := range ops {
+				sleepUntil(start, scale*time.Duration(op.start))
+				r, run, teardown := prepareCall(&c, op)
+				results[i] = r
+				teardowns = append(teardowns, teardown)
+				go run()
+				synctest.Wait()
+			}
 		}
 		sleepUntil(start, scale*time.Duration(tend)+1)
 		cnt = bubbleGoroutines()
-		for _, f := range cancels {
+		for i := range ops {
+			_, _, _, compss[i] = results[i].snapshot()
+		}
+		sleepUntil(start, scale*time.Duration(tend+2))
+		for _, f := range teardowns {
 			f()
 		}
+		synctest.Wait()
+		after = bubbleGoroutines()
 	})
-	if dead && cnt == 0 {
-		cnt = 1
+	if dead && after == 0 {
+		after = 1
 	}
 	defer func() {
 		if hung {
@@ -385,8 +478,11 @@ func runHistory(tags string, ops []round, tend int64) {
 		if results[i] == nil { // never started: the bubble hung before
 			results[i] = &callResult{cls: -1, ret: -1, ms: toMs(op.ms0)}
 		}
-		as[i] = lib.L(lib.I(op.start), lib.I(op.D), fmtScripts(op.clocks), fmtMrecs(op.ms0))
+		as[i] = lib.L(lib.I(op.start), fmtCtx(op), fmtScripts(op.clocks), fmtMrecs(op.ms0))
 		cls, ret, ms, comps := results[i].snapshot()
+		if compss[i] != nil {
+			comps = compss[i]
+		}
 		if cls == -1 {
 			cls = 5
 			if hung {
@@ -406,7 +502,7 @@ func runHistory(tags string, ops []round, tend int64) {
 		}
 		obs[i] = lib.L(lib.I(cls), lib.I(ret), ms, lib.IL(comps))
 	}
-	w.Case("history", tags, lib.V(lib.L(as...), lib.I(tend)), lib.V(lib.L(obs...), lib.I(cnt)))
+	w.Case(kind, tags, lib.V(lib.L(as...), lib.I(tend), lib.I(int64(variant))), lib.V(lib.L(obs...), lib.I(cnt), lib.I(after)))
 }
 
 // ---- generators ----
@@ -418,9 +514,12 @@ func max0(x int64) int64 {
 	return x
 }
 
-// completion time of a scripted clock (used only to aim probes and histories and for tags)
-func ctime(D int64, s script) int64 {
-	D0, t0, e0 := max0(D), max0(s.t), max0(s.e)
+const never = int64(1) << 62
+
+// completion time of a scripted clock under a context that is done at instant X (used only
+// to aim probes and histories and for tags)
+func ctime(X int64, s script) int64 {
+	D0, t0, e0 := max0(X), max0(s.t), max0(s.e)
 	switch s.kind {
 	case 0, 3:
 		return t0
@@ -429,19 +528,34 @@ func ctime(D int64, s script) int64 {
 			return t0
 		}
 		return D0 + e0
+	case 4:
+		return never
 	}
 	return D0 + e0
 }
 
 func retTime(rd round) int64 {
+	X := doneAt(rd)
 	m := int64(0)
 	for _, s := range rd.clocks {
-		if c := ctime(rd.D, s); c > m {
+		if c := ctime(X, s); c > m {
 			m = c
 		}
 	}
-	if D0 := max0(rd.D); m > D0 {
-		return D0
+	if m > X {
+		return X
+	}
+	return m
+}
+
+// the latest instant at which a clock that completes at all completes
+func lastCompletion(rd round) int64 {
+	X := doneAt(rd)
+	m := int64(0)
+	for _, s := range rd.clocks {
+		if c := ctime(X, s); c != never && c > m {
+			m = c
+		}
 	}
 	return m
 }
@@ -461,20 +575,22 @@ func genDeadline(r *lib.Rng) int64 {
 func genClock(r *lib.Rng, D int64, id int64) script {
 	D0 := max0(D)
 	s := script{ok: r.Intn(10) < 7, ts: 1700000000000000000 + id*1000 + r.Range(0, 9), off: 1000 + id}
-	// a few distinct instants so that completions coincide with each other and with the deadline
+	// a few distinct instants so that completions coincide with each other and with the cancellation
 	near := func() int64 {
 		return lib.Pick(r, int64(0), 1, D0/2, D0-2, D0-1, D0, D0, D0+1, D0+2, 2*D0+1, D0+r.Range(0, 50), r.Range(0, D0+1), 3*D0+17)
 	}
-	switch r.Intn(8) {
-	case 0, 1, 2:
+	switch r.Intn(17) {
+	case 0, 1, 2, 3, 4, 5:
 		s.kind, s.t = 0, near()
-	case 3:
+	case 6, 7:
 		s.kind, s.t = 3, near()
-	case 4, 5:
+	case 8, 9, 10, 11:
 		s.kind, s.t, s.e = 1, near(), lib.Pick(r, int64(0), 0, 1, 5, r.Range(0, 40))
 		if max0(s.t) == D0 {
 			s.e = 0
 		}
+	case 12:
+		s.kind = 4 // never completes, cancelled or not
 	default:
 		s.kind, s.e = 2, lib.Pick(r, int64(0), 0, 0, 1, 7, r.Range(0, 60))
 	}
@@ -487,29 +603,55 @@ func genClock(r *lib.Rng, D int64, id int64) script {
 	return s
 }
 
+// genRound generates clocks around an instant X at which the context is to be done and
+// then decides how the context gets done at X: by its deadline, by an explicit cancel
+// before its deadline, by an explicit cancel of a context without deadline, or not at all
+// before the harness's final cancel (mode "open": rd.F is then the instant, set by the caller).
 func genRound(r *lib.Rng, maxn int) round {
 	n := r.Intn(maxn + 1)
 	if r.Intn(12) == 0 {
 		n = r.Intn(4*maxn + 1)
 	}
-	rd := round{D: genDeadline(r)}
+	X := genDeadline(r)
+	rd := round{F: never}
 	for k := 0; k < n; k++ {
-		rd.clocks = append(rd.clocks, genClock(r, rd.D, int64(k)))
+		rd.clocks = append(rd.clocks, genClock(r, X, int64(k)))
 	}
-	// shape the round now and then: everything early / everything late / all at the deadline
+	// shape the round now and then: everything early / everything late / all at the cancellation
 	switch r.Intn(12) {
 	case 0:
 		for k := range rd.clocks {
-			rd.clocks[k].kind, rd.clocks[k].t = 0, r.Range(0, max0(rd.D)-1)
+			rd.clocks[k].kind, rd.clocks[k].t = 0, r.Range(0, max0(X)-1)
 		}
 	case 1:
 		for k := range rd.clocks {
-			rd.clocks[k].kind, rd.clocks[k].t = 0, max0(rd.D)+r.Range(1, 30)
+			rd.clocks[k].kind, rd.clocks[k].t = 0, max0(X)+r.Range(1, 30)
 		}
 	case 2:
 		for k := range rd.clocks {
-			rd.clocks[k].kind, rd.clocks[k].t = lib.Pick(r, int64(0), 3), max0(rd.D)
+			rd.clocks[k].kind, rd.clocks[k].t = lib.Pick(r, int64(0), 3), max0(X)
 		}
+	}
+	switch r.Intn(20) {
+	case 0, 1, 2, 3: // cancelled explicitly before the deadline
+		rd.hasD, rd.D = true, max0(X)+lib.Pick(r, int64(1), 2, 50, 1000000000000)
+		rd.hasC, rd.C = true, X
+	case 4, 5, 6: // no deadline, cancelled explicitly
+		rd.hasC, rd.C = true, X
+	case 7: // deadline and an explicit cancel at the same instant or later
+		rd.hasD, rd.D = true, X
+		rd.hasC, rd.C = true, max0(X)+lib.Pick(r, int64(0), 0, 1, 30)
+	case 8, 9: // neither: the collector has to wait for every clock
+		for k := range rd.clocks {
+			if rd.clocks[k].kind == 2 || rd.clocks[k].kind == 4 {
+				rd.clocks[k].kind = 0
+			}
+			if rd.clocks[k].kind == 1 {
+				rd.clocks[k].e = 0
+			}
+		}
+	default:
+		rd.hasD, rd.D = true, X
 	}
 	// clocks that report the same measurement
 	if n >= 2 && r.Intn(6) == 0 {
@@ -528,13 +670,16 @@ func genRound(r *lib.Rng, maxn int) round {
 }
 
 func roundTags(rd round) (tags []string, nt bool) {
-	D0 := max0(rd.D)
-	var early, tie, late, fail int
+	D0 := doneAt(rd)
+	var early, tie, late, fail, nev int
 	seen := map[[2]int64]bool{}
 	dup := false
 	for _, s := range rd.clocks {
-		c := ctime(rd.D, s)
+		c := ctime(D0, s)
 		switch {
+		case c == never:
+			nev++
+			late++
 		case c < D0:
 			early++
 		case c == D0:
@@ -555,8 +700,20 @@ func roundTags(rd round) (tags []string, nt bool) {
 	if len(rd.clocks) == 0 {
 		tags = append(tags, "n0")
 	}
-	if rd.D <= 0 {
+	if D0 == 0 {
 		tags = append(tags, "expired")
+	}
+	if !rd.hasD {
+		tags = append(tags, "nodl")
+	}
+	if rd.hasC && (!rd.hasD || max0(rd.C) < max0(rd.D)) {
+		tags = append(tags, "xcancel")
+	}
+	if !rd.hasD && !rd.hasC {
+		tags = append(tags, "open")
+	}
+	if nev > 0 {
+		tags = append(tags, "never")
 	}
 	if early > 0 {
 		tags = append(tags, "early")
@@ -580,26 +737,34 @@ func roundTags(rd round) (tags []string, nt bool) {
 	return
 }
 
-func genProbes(r *lib.Rng, rd round) []int64 {
+// genProbes chooses the instants at which goroutines are counted and fixes rd.F, the
+// harness's final cancel, after the last of them.
+func genProbes(r *lib.Rng, rd *round) []int64 {
 	set := map[int64]bool{}
-	D0 := max0(rd.D)
+	open := !rd.hasD && !rd.hasC
+	D0 := doneAt(*rd)
+	if open {
+		D0 = 0
+	}
 	end := D0
+	if c := lastCompletion(*rd); c > end {
+		end = c
+	}
+	last := end + r.Range(1, 20)
+	rd.F = last + 1
+	D0 = doneAt(*rd)
+	cands := []int64{0, D0 - 1, D0, D0 + 1, retTime(*rd), retTime(*rd) + 1}
 	for _, s := range rd.clocks {
-		if c := ctime(rd.D, s); c > end {
-			end = c
+		if c := ctime(D0, s); c != never {
+			cands = append(cands, c-1, c, c+1)
 		}
 	}
-	cands := []int64{0, D0 - 1, D0, D0 + 1, retTime(rd), retTime(rd) + 1}
-	for _, s := range rd.clocks {
-		c := ctime(rd.D, s)
-		cands = append(cands, c-1, c, c+1)
-	}
 	for i := 0; i < 4; i++ {
-		if x := cands[r.Intn(len(cands))]; x >= 0 {
+		if x := cands[r.Intn(len(cands))]; x >= 0 && x <= last {
 			set[x] = true
 		}
 	}
-	set[end+r.Range(1, 20)] = true
+	set[last] = true
 	var ps []int64
 	for x := range set {
 		ps = append(ps, x)
@@ -610,6 +775,7 @@ func genProbes(r *lib.Rng, rd round) []int64 {
 
 func genCollect(r *lib.Rng) {
 	rd := genRound(r, 7)
+	probes := genProbes(r, &rd)
 	tags, nt := roundTags(rd)
 	if r.Intn(25) == 0 { // lengths differ: refused before anything starts
 		if r.Bool() || len(rd.ms0) == 0 {
@@ -622,9 +788,12 @@ func genCollect(r *lib.Rng) {
 	if nt {
 		tags = append(tags, "nt")
 	}
-	runCollect(strings.Join(tags, ","), rd, genProbes(r, rd))
+	runCollect(strings.Join(tags, ","), rd, probes)
 }
 
+// rounds of a history: an "open" context (done only by the harness's final cancel) would keep
+// its round in progress until the end if a clock waits for the cancellation, so such clocks
+// are not generated there (genRound)
 func genHistory(r *lib.Rng) {
 	nops := 2 + r.Intn(4)
 	var ops []round
@@ -658,32 +827,43 @@ func genHistory(r *lib.Rng) {
 		}
 		rd.start = t
 		ops = append(ops, rd)
+		if rd.hasC && (!rd.hasD || max0(rd.C) < max0(rd.D)) {
+			tags["xcancel"] = true
+		}
 		if len(rd.ms0) == len(rd.clocks) {
 			if t < busyUntil {
 				tags["busy"] = true
 			} else {
 				if t < lateUntil {
-					tags["reuse"] = true // admitted while late clocks of an earlier round are still running
+					tags["reuse"] = true // let in while late clocks of an earlier round are still running
 				}
-				busyUntil = t + retTime(rd)
-				for _, s := range rd.clocks {
-					if c := t + ctime(rd.D, s); c > lateUntil {
-						lateUntil = c
-					}
+				if c := t + lastCompletion(rd); c > lateUntil {
+					lateUntil = c
 				}
+				busyUntil = t + retTime(rd) // (F = never for now: an open context is done after every clock)
 			}
 		}
 	}
 	tend := lateUntil
+	for _, op := range ops { // whichever calls get in: every clock that completes at all has completed by tend
+		if c := op.start + lastCompletion(op); c > tend {
+			tend = c
+		}
+	}
 	if busyUntil > tend {
 		tend = busyUntil
 	}
 	for _, op := range ops {
-		if x := op.start + max0(op.D); x > tend {
-			tend = x
+		if op.hasD || op.hasC {
+			if x := op.start + doneAt(op); x > tend {
+				tend = x
+			}
 		}
 	}
 	tend += r.Range(1, 10)
+	for i := range ops {
+		ops[i].F = tend - ops[i].start + 1
+	}
 	var tl []string
 	for k := range tags {
 		tl = append(tl, k)
@@ -692,7 +872,64 @@ func genHistory(r *lib.Rng) {
 	if tags["busy"] {
 		tl = append(tl, "nt")
 	}
-	runHistory(strings.Join(tl, ","), ops, tend)
+	runHistory("history", strings.Join(tl, ","), ops, tend, 0)
+}
+
+// genRace: two or three calls on one collector released at the same instant from a barrier
+func genRace(r *lib.Rng) {
+	k := 2 + r.Intn(2)
+	var ops []round
+	start := r.Range(0, 20)
+	tend := int64(0)
+	long := 0
+	for i := 0; i < k; i++ {
+		rd := genRound(r, 3)
+		if r.Intn(4) != 0 { // mostly rounds that take a while, so that the others must be refused
+			rd = round{hasD: true, D: r.Range(5, 300), F: never}
+			n := 1 + r.Intn(2)
+			for j := 0; j < n; j++ {
+				rd.clocks = append(rd.clocks, script{kind: lib.Pick(r, int64(0), 3, 2), t: r.Range(1, 400), ok: r.Intn(4) != 0,
+					ts: 1700000000000000000 + int64(100*i+j), off: int64(1000 + 100*i + j)})
+				rd.ms0 = append(rd.ms0, mrec{ts: 1600000000000000000 + int64(j), off: -5000 - int64(j)})
+			}
+		}
+		if r.Intn(12) == 0 {
+			rd.ms0 = append(rd.ms0, mrec{ts: 1, off: 2})
+		}
+		rd.start = start
+		if len(rd.ms0) == len(rd.clocks) && retTime(rd) > 0 {
+			long++
+		}
+		if rd.hasD || rd.hasC {
+			if x := start + doneAt(rd); x > tend {
+				tend = x
+			}
+		}
+		if x := start + lastCompletion(rd); x > tend {
+			tend = x
+		}
+		ops = append(ops, rd)
+	}
+	tend += r.Range(1, 10)
+	for i := range ops {
+		ops[i].F = tend - ops[i].start + 1
+	}
+	tags := "race"
+	if long >= 2 {
+		tags += ",contended,nt"
+	}
+	// callers mostly spin on the barrier without yielding (that is what makes them reach the
+	// guard within nanoseconds of each other), each with its own short delay after it
+	variant := r.Intn(1 << 12)
+	switch r.Intn(10) {
+	case 0:
+		variant |= 1 << 12
+	case 1, 2:
+		variant |= 1 << 13
+	case 3:
+		variant |= 3 << 12
+	}
+	runHistory("race", tags, ops, tend, variant)
 }
 
 // ---- replay: parse the args of a case line back ----
@@ -758,17 +995,25 @@ func intsOf(v val) []int64 {
 	return out
 }
 
+func ctxOf(v val, rd *round) {
+	rd.hasD, rd.D, rd.hasC, rd.C, rd.F = v.list[0].n != 0, v.list[1].n, v.list[2].n != 0, v.list[3].n, v.list[4].n
+}
+
 func replay(kind, tags, args string) {
 	vs := parseVals(args)
 	switch kind {
 	case "collect":
-		runCollect(tags, round{D: vs[0].n, clocks: scriptsOf(vs[1]), ms0: mrecsOf(vs[2])}, intsOf(vs[3]))
-	case "history":
+		rd := round{clocks: scriptsOf(vs[1]), ms0: mrecsOf(vs[2])}
+		ctxOf(vs[0], &rd)
+		runCollect(tags, rd, intsOf(vs[3]))
+	case "history", "race":
 		var ops []round
 		for _, o := range vs[0].list {
-			ops = append(ops, round{start: o.list[0].n, D: o.list[1].n, clocks: scriptsOf(o.list[2]), ms0: mrecsOf(o.list[3])})
+			rd := round{start: o.list[0].n, clocks: scriptsOf(o.list[2]), ms0: mrecsOf(o.list[3])}
+			ctxOf(o.list[1], &rd)
+			ops = append(ops, rd)
 		}
-		runHistory(tags, ops, vs[1].n)
+		runHistory(kind, tags, ops, vs[1].n, int(vs[2].n))
 	}
 }
 
@@ -783,19 +1028,22 @@ func main() {
 		return
 	}
 	r := lib.NewRng(a.Seed)
-	nc, nh := 3500, 3500
+	nc, nh, nr := 3500, 3500, 5000
 	if a.Tier == "thorough" {
-		nc, nh = 60000, 50000
+		nc, nh, nr = 60000, 50000, 60000
 	}
 	corpus()
-	// rounds and histories interleaved, so that a run that stops early has seen both
-	for i := 0; i < nc || i < nh; i++ {
+	// the kinds interleaved, so that a run that stops early has seen all of them
+	for i := 0; i < nc || i < nh || i < nr; i++ {
 		if i < nc {
 			genCollect(r)
 			genCollect(r.Fork())
 		}
 		if i < nh {
 			genHistory(r)
+		}
+		if i < nr {
+			genRace(r)
 		}
 		stopIfLeaky()
 	}
@@ -814,24 +1062,42 @@ func corpus() {
 		}
 		return m
 	}
+	dl := func(start, D, F int64, clocks []script, ms0 []mrec) round {
+		return round{start: start, hasD: true, D: D, F: F, clocks: clocks, ms0: ms0}
+	}
 	// a blocked clock far beyond the deadline, a fast one, a failing one
-	runCollect("late,early,fail,nt", round{D: 100, clocks: []script{ok(3, 4000, 0, 0), ok(0, 10, 0, 1), bad(0, 20, 0, 2)}, ms0: st(3)}, []int64{0, 99, 100, 101, 4000, 4010})
+	runCollect("late,early,fail,nt", dl(0, 100, 4011, []script{ok(3, 4000, 0, 0), ok(0, 10, 0, 1), bad(0, 20, 0, 2)}, st(3)), []int64{0, 99, 100, 101, 4000, 4010})
 	// all clocks wait for the cancellation
-	runCollect("tie,nt", round{D: 50, clocks: []script{ok(2, 0, 0, 0), ok(2, 0, 0, 1), bad(2, 0, 3, 2)}, ms0: st(3)}, []int64{49, 50, 53, 60})
+	runCollect("tie,nt", dl(0, 50, 61, []script{ok(2, 0, 0, 0), ok(2, 0, 0, 1), bad(2, 0, 3, 2)}, st(3)), []int64{49, 50, 53, 60})
 	// no clocks at all
-	runCollect("n0", round{D: 10}, []int64{0, 10, 11})
+	runCollect("n0", dl(0, 10, 12, nil, nil), []int64{0, 10, 11})
 	// deadline already over
-	runCollect("expired,tie,nt", round{D: 0, clocks: []script{ok(0, 0, 0, 0), ok(0, 5, 0, 1)}, ms0: st(2)}, []int64{0, 5, 6})
+	runCollect("expired,tie,nt", dl(0, 0, 7, []script{ok(0, 0, 0, 0), ok(0, 5, 0, 1)}, st(2)), []int64{0, 5, 6})
+	// cancelled explicitly long before the deadline, with a clock that never completes and one that waits for the cancellation
+	runCollect("xcancel,never,early,late,nt", round{hasD: true, D: 100000, hasC: true, C: 40, F: 500,
+		clocks: []script{ok(4, 0, 0, 0), ok(0, 10, 0, 1), ok(2, 0, 5, 2), ok(0, 300, 0, 3)}, ms0: st(4)}, []int64{0, 39, 40, 41, 45, 300, 499})
+	// no deadline, cancelled explicitly
+	runCollect("nodl,xcancel,late,nt", round{hasC: true, C: 70, F: 200,
+		clocks: []script{ok(0, 10, 0, 0), bad(3, 20, 0, 1), ok(3, 150, 0, 2)}, ms0: st(3)}, []int64{69, 70, 71, 150, 199})
+	// no deadline, never cancelled before every clock has completed: returns with the last clock
+	runCollect("nodl,open,allearly", round{F: 1000, clocks: []script{ok(0, 10, 0, 0), ok(3, 600, 0, 1), bad(1, 40, 0, 2)}, ms0: st(3)}, []int64{0, 599, 600, 601, 999})
 	// second call while the first is in progress, then again, then after it returned
-	one := round{start: 0, D: 100, clocks: []script{ok(0, 60, 0, 0), ok(3, 500, 0, 1)}, ms0: st(2)}
-	two := round{start: 10, D: 100, clocks: nil, ms0: nil}
-	three := round{start: 20, D: 30, clocks: []script{ok(0, 1, 0, 5)}, ms0: st(1)}
-	four := round{start: 100, D: 30, clocks: []script{ok(0, 1, 0, 6), bad(2, 0, 0, 7)}, ms0: st(2)}
-	runHistory("busy,reuse,boundary,nt", []round{one, two, three, four}, 700)
+	one := dl(0, 100, 701, []script{ok(0, 60, 0, 0), ok(3, 500, 0, 1)}, st(2))
+	two := dl(10, 100, 691, nil, nil)
+	three := dl(20, 30, 681, []script{ok(0, 1, 0, 5)}, st(1))
+	four := dl(100, 30, 601, []script{ok(0, 1, 0, 6), bad(2, 0, 0, 7)}, st(2))
+	runHistory("history", "busy,reuse,boundary,nt", []round{one, two, three, four}, 700, 0)
 	// three calls at one instant: one that returns at once, one with unequal lengths, one more
-	b1 := round{start: 24, D: 1, clocks: []script{ok(3, -1, 0, 3)}, ms0: st(1)}
-	b2 := round{start: 24, D: 2, clocks: nil, ms0: st(1)}
-	b3 := round{start: 24, D: 1716, clocks: nil, ms0: nil}
-	b4 := round{start: 24, D: 236, clocks: []script{ok(0, 236, 0, 1), ok(0, 236, 1, 2)}, ms0: st(2)}
-	runHistory("boundary,burst,len", []round{b1, b2, b3, b4}, 1749)
+	b1 := dl(24, 1, 1726, []script{ok(3, -1, 0, 3)}, st(1))
+	b2 := dl(24, 2, 1726, nil, st(1))
+	b3 := dl(24, 1716, 1726, nil, nil)
+	b4 := dl(24, 236, 1726, []script{ok(0, 236, 0, 1), ok(0, 236, 1, 2)}, st(2))
+	runHistory("history", "boundary,burst,len", []round{b1, b2, b3, b4}, 1749, 0)
+	// three callers at once on one collector, each round takes a while: exactly one gets in
+	c1 := dl(5, 100, 300, []script{ok(0, 60, 0, 0)}, st(1))
+	c2 := dl(5, 100, 300, []script{ok(0, 70, 0, 1)}, st(1))
+	c3 := dl(5, 100, 300, []script{ok(2, 0, 0, 2)}, st(1))
+	for v := 0; v < 100; v++ {
+		runHistory("race", "race,contended,nt", []round{c1, c2, c3}, 304, (v*397)&(1<<12-1))
+	}
 }
